@@ -95,7 +95,7 @@ class ApplyMonitor(taps.Monitor):
         scale = max(1.0, float(np.abs(ref).max()) if ref.size else 1.0)
         e = _maxdiff(result.points, ref)
         ctx.err("apply_points_vs_array", e / scale)
-        if e > self.rtol * scale:
+        if not (e <= self.rtol * scale):
             ctx.fail("shape_points_differ_from_transformed_array", cls=xcls, mech=tcls, err=e)
         self._against_parameters(ctx, t, st["pts"], result.points, tcls, xcls)
         # landmarks moved by the same map
@@ -119,7 +119,7 @@ class ApplyMonitor(taps.Monitor):
                 except TriangleContainmentError:
                     continue
                 e = _maxdiff(rg.points, gref)
-                if e > self.rtol * max(1.0, float(np.abs(gref).max()) if gref.size else 1.0):
+                if not (e <= self.rtol * max(1.0, float(np.abs(gref).max()) if gref.size else 1.0)):
                     ctx.fail("landmark_group_not_moved_by_the_same_map", cls=xcls, mech=tcls + (":nested" if len(name) > 1 else ""), group=list(name), err=e,
                              lm_cls=gc.__name__)
                 # the group's own structure
@@ -169,7 +169,7 @@ def _against_parameters(self, ctx, t, pts, got, tcls, xcls):
     scale = max(1.0, float(np.abs(ref[ok]).max()))
     e = float(np.abs(got[ok] - ref[ok]).max())
     ctx.err("apply_vs_parameter_defined_map", e / scale)
-    if e > (1e-6 if _smooth(t) else 1e-8) * scale:
+    if not (e <= (1e-6 if _smooth(t) else 1e-8) * scale):
         ctx.fail("result_differs_from_the_map_the_parameters_define", cls=tcls, mech=xcls, err=e)
 
 
@@ -180,7 +180,10 @@ def _maxdiff(a, b):
     a, b = np.asarray(a, dtype=float), np.asarray(b, dtype=float)
     if a.shape != b.shape:
         return float("inf")
-    return float(np.abs(a - b).max()) if a.size else 0.0
+    if not a.size:
+        return 0.0
+    m = float(np.abs(a - b).max())
+    return m if m == m else float("inf")
 
 
 def install_apply_monitor(ctx):
